@@ -42,7 +42,18 @@ class Router:
     def queues(self) -> frozenset[str]:
         return frozenset(self.topics_by_queue.keys())
 
+    def _forget_topic(self, name: str, new_queue: str) -> None:
+        # an actor which is being overridden must not stay in the topics of its previous queue
+        previous = self.actors.get(name)
+        if previous is None or previous.queue == new_queue:
+            return
+        self.topics_by_queue[previous.queue].discard(name)
+        if not self.topics_by_queue[previous.queue]:
+            del self.topics_by_queue[previous.queue]
+
     def include_router(self, router: Router) -> None:
+        for name, actor in router.actors.items():
+            self._forget_topic(name, actor.queue)
         self.actors.update(router.actors)
         for queue_name, topics in router.topics_by_queue.items():
             self.topics_by_queue[queue_name].update(topics)
@@ -136,6 +147,7 @@ class Router:
                 "followed by letters, digits, dashes or underscores.",
             )
 
+        self._forget_topic(a.name, a.queue)
         self.actors[a.name] = a
         self.topics_by_queue[a.queue].add(a.name)
         return fn
